@@ -499,7 +499,14 @@ def _strat_apply_unitary_from_decompose(val: Any, args: ApplyUnitaryArgs) -> np.
     all_qubits = frozenset([q for op in operations for q in op.qubits])
     ancilla = tuple(sorted(all_qubits.difference(qubits)))
     if not len(ancilla):
-        return apply_unitaries(operations, qubits, args, None)
+        if args.slices is None:
+            return apply_unitaries(operations, qubits, args, None)
+        # The value acts on subspaces of its axes: run the operations on that slice of the tensor.
+        sub_args = args._for_operation_with_qid_shape(range(len(args.slices)), args.slices)
+        sub_result = apply_unitaries(operations, qubits, sub_args, None)
+        if sub_result is None or sub_result is NotImplemented:
+            return sub_result
+        return _incorporate_result_into_target(args, sub_args, sub_result)
     ordered_qubits = ancilla + tuple(qubits)
     all_qid_shapes = qid_shape_protocol.qid_shape(ordered_qubits)
     result = apply_unitaries(
